@@ -3,7 +3,9 @@
 Require Import PonyV.Base.PyBase PonyV.Model.C33Flush PonyV.Proofs.C33Proofs.
 
 Theorem C33_refuted_obj_flush_principal :
-  exists s', obj_flush no_hooks 10 1 st_principal = Some s' /\
-             log s' = [EB KIns 1; ES KIns 0; ES KIns 1; EA KIns 0; EA KIns 1] /\ phase (log s') 0 = Bad.
+  match obj_flush no_hooks 10 1 st_principal with
+  | Some s' => log s' = [EB KIns 1; ES KIns 0; ES KIns 1; EA KIns 0; EA KIns 1] /\ phase (log s') 0 = Bad
+  | None => False
+  end.
 Proof. exact obj_flush_principal_refuted. Qed.
 Print Assumptions C33_refuted_obj_flush_principal.
